@@ -142,6 +142,22 @@ func FactOf(g Guard) Fact {
 			v, br = u.X, !br
 			continue
 		}
+		// b == false, b != true, true == b ... : a comparison of a boolean with a boolean constant is that boolean (or its negation)
+		if bo, ok := v.(*ssa.BinOp); ok && (bo.Op == token.EQL || bo.Op == token.NEQ) {
+			other, cv, isC := ssa.Value(nil), false, false
+			if k, ok := bo.Y.(*ssa.Const); ok && k.Value != nil && k.Value.Kind() == constant.Bool {
+				other, cv, isC = bo.X, constant.BoolVal(k.Value), true
+			} else if k, ok := bo.X.(*ssa.Const); ok && k.Value != nil && k.Value.Kind() == constant.Bool {
+				other, cv, isC = bo.Y, constant.BoolVal(k.Value), true
+			}
+			if isC {
+				if (bo.Op == token.EQL) != cv {
+					br = !br
+				}
+				v = other
+				continue
+			}
+		}
 		break
 	}
 	if b, ok := v.(*ssa.BinOp); ok {
